@@ -392,11 +392,11 @@ func (c *Ctx) clientSubscribeClosure() {
 			if !ok {
 				return false
 			}
-			k, isK := bo.Y.(*ssa.Const)
-			if !isK || k.Value == nil || k.Value.ExactString() != "128" {
+			other, is80 := cmp0x80(bo)
+			if !is80 {
 				return false
 			}
-			if !elementOfParallel(bo.X, l, func(call *ssa.Call) bool {
+			if !elementOfParallel(other, l, func(call *ssa.Call) bool {
 				return ir.IsMethod(call.Common(), pkgMessage, "SubackMessage", "ReturnCodes")
 			}) {
 				return false
@@ -418,8 +418,7 @@ func (c *Ctx) clientSubscribeClosure() {
 			if !ok {
 				return false
 			}
-			k, isK := bo.Y.(*ssa.Const)
-			if !isK || k.Value == nil || k.Value.ExactString() != "128" {
+			if _, is80 := cmp0x80(bo); !is80 {
 				return false
 			}
 			eq := bo.Op.String() == "=="
@@ -538,4 +537,17 @@ func (c *Ctx) framingReadsWholePacket() {
 	}
 	c.R.Count("connection reads in the handshake framing reader", n)
 	c.R.Floor("connection reads in the handshake framing reader", n, 2)
+}
+
+// cmp0x80: the comparison (== / !=) has the constant 0x80 on one side; returns the other operand.
+func cmp0x80(bo *ssa.BinOp) (ssa.Value, bool) {
+	if bo.Op.String() != "==" && bo.Op.String() != "!=" {
+		return nil, false
+	}
+	for _, pr := range [][2]ssa.Value{{bo.X, bo.Y}, {bo.Y, bo.X}} {
+		if k, ok := pr[1].(*ssa.Const); ok && k.Value != nil && k.Value.ExactString() == "128" {
+			return pr[0], true
+		}
+	}
+	return nil, false
 }
